@@ -163,6 +163,10 @@ def r81(ctx):
         if nm.endswith("Iterator>::any") or nm.endswith("::any"):
             if "channels" in render(nv.expr(c.args[0])):
                 any_false |= fv.result_edges(bi, c, "err")
+        # the same test spelled `channels.iter().all(|c| c.is_none())`: true means "funds no channel"
+        if (nm.endswith("Iterator>::all") or nm.endswith("::all")) and "channels" in render(nv.expr(c.args[0])):
+            if c.cls and all(R.closure_calls(p, cd, lambda n: n.endswith("Option::<T>::is_none")) for cd in c.cls):
+                any_false |= fv.result_edges(bi, c, "ok")
         if nm.endswith("is_tx_non_malleable"):
             nm_true |= fv.result_edges(bi, c, "ok")
     ok = bool(any_false) and bool(nm_true) and all(fv.must_pass(sb, any_false | nm_true) for sb, _ in succ)
